@@ -705,7 +705,8 @@ def emit_fn(unit, blk, rel):
     if blk.sig is None:
         raise ExtractError(f"{rel}: //@fn {name} has no //@sig")
     sig_text = blk.sig + "\n" + "\n".join(t for t, _ in blk.sections.get("sig", []))
-    want = [p for p in sig_param_names(sig_text)]
+    want = [("this" if p == "self" else p) for p in sig_param_names(sig_text)]
+    keep_self = "self" in sig_param_names(sig_text)
     ghost_extra = [p for p in want if p.startswith("__g")]
     want_real = [p for p in want if not p.startswith("__g")]
     if real != want_real:
@@ -715,7 +716,8 @@ def emit_fn(unit, blk, rel):
     # --- rewrite rules on the body (order matters only where stated)
     r1_strip_attrs(body)
     r11_panics(body)
-    r10_self(body)
+    if not keep_self:
+        r10_self(body)
     if blk.strip_turbofish is not None:
         r2_turbofish(body, blk.strip_turbofish or None)
     for (frm, to) in blk.replaces:
@@ -723,7 +725,7 @@ def emit_fn(unit, blk, rel):
         pat = [t.text for t in tokenize(frm)]
         hits = _find_seq(toks_b, pat)
         if not hits:
-            raise ExtractError(f"lost anchor: `{frm}` not found in body of {name}")
+            continue   # a declared substitution that does not occur changes nothing; Verus will reject any leftover it cannot resolve
         body.edit([(toks_b[h].start, toks_b[h + len(pat) - 1].end, to) for h in hits], "R12")
     r3_types(body, blk.types)
     r6_enumerate(body)
